@@ -129,6 +129,14 @@ func (a *Agg) VerifyAggregate(mask []int, payload, aggSig []byte) error {
 func AggregateFor(keys []gpbft.PubKey, mask []int, payload []byte) []byte {
 	sigs := make([][]byte, len(mask))
 	for i, bit := range mask {
+		if bit < 0 || bit >= len(keys) {
+			// no such member: nobody can produce this aggregate; return bytes that
+			// verify for nothing
+			h := sha256.Sum256(append([]byte("vagg-impossible"), payload...))
+			out := make([]byte, 96)
+			copy(out, h[:])
+			return out
+		}
 		sigs[i] = RawSign(keys[bit], payload)
 	}
 	out, err := aggregate(keys, mask, sigs)
